@@ -17,8 +17,8 @@ Foreign(tag)       == Kid(tag, FALSE, None, "absent", "absent", None)
 Wrapper(tag, nest) == Kid(tag, FALSE, None, "absent", "absent", nest)
 
 Ops  == {"REPLACE", "DELETE", "INSERT", "SWAP", "MOVE", "CLEAR", None}
-Tgts == {"absent", "empty", "story", "storyitem"}
-Srcs == {"absent", "empty", "storyID", "itemID", "item", "story"}
+Tgts == {"absent", "empty", "story", "storyitem", "storyitemblank"}
+Srcs == {"absent", "empty", "storyID", "itemID", "itemIDblank", "item", "story"}
 
 MsgKids ==
   { Kid(t, c, None, "absent", "absent", None) : t \in MsgTags \ {"roElementAction"}, c \in BOOLEAN }
